@@ -125,4 +125,20 @@ def updateAll (layout : World → List (List Line)) (path : Name) : World → Fs
     let (w', ops) := updateWorldset layout path w r
     updateAll layout path w' (run ops fs) rs
 
+/-- `update_worldset` when the flush may fail *transiently* (an `OSError` from one of its calls, e.g. `ENOSPC` at the
+rename): the exception propagates out of `update_worldset`, `flush` has discarded the temp file, the world file keeps
+its old content — and the in-memory set keeps the change (the code does not roll it back), so the next successful
+flush of the same `WorldFile` object writes it too. -/
+def updateWorldsetF (layout : World → List (List Line)) (path : Name) (w : World) (r : Req) (fails : Bool) : World × List FsOp :=
+  match modify w r with
+  | none => (w, [])
+  | some w' => (w', if fails then discardOps path (layout w') else flushOps path (layout w'))
+
+/-- a sequence of `update_worldset` calls on one long-lived `WorldFile`, some of whose flushes fail -/
+def updateAllF (layout : World → List (List Line)) (path : Name) : World → Fs → List (Req × Bool) → World × Fs
+  | w, fs, [] => (w, fs)
+  | w, fs, (r, fails) :: rs =>
+    let res := updateWorldsetF layout path w r fails
+    updateAllF layout path res.1 (run res.2 fs) rs
+
 end Pkgcore.C30
